@@ -95,6 +95,13 @@ func (env *CEnv) lookup(name string) (bound, bool) {
 		if v, ok := c.idxVars[name]; ok {
 			return bound{c.readVar(env.s, v, env.pos), v.Type()}, true
 		}
+		if name == "idx" && c.curLoop > 0 {
+			if v, ok := c.loopIdxVar[c.curLoop]; ok {
+				if _, has := env.s.vars[v]; has {
+					return bound{c.readVar(env.s, v, env.pos), v.Type()}, true
+				}
+			}
+		}
 		if v := c.lookupLocal(name, env.pos); v != nil {
 			if _, ok := env.s.vars[v]; ok || c.isGlobal(v) {
 				return bound{c.readVar(env.s, v, env.pos), v.Type()}, true
@@ -225,7 +232,7 @@ func (env *CEnv) eval(e ast.Expr) (Value, types.Type) {
 			return v, u.Elem()
 		case *types.Basic:
 			c.useStr()
-			return IntV{app("str.at", asInt(bv), asInt(iv))}, types.Typ[types.Uint8]
+			return IntV{app("gs.at", asInt(bv), asInt(iv))}, types.Typ[types.Uint8]
 		}
 		cfail("cannot index %s", typeKey(bt))
 	case *ast.SliceExpr:
@@ -396,7 +403,7 @@ func (env *CEnv) evalCall(x *ast.CallExpr) (Value, types.Type) {
 				return IntV{v.(SliceV).Cap}, tInt
 			case *types.Basic:
 				c.useStr()
-				return IntV{app("str.len", asInt(v))}, tInt
+				return IntV{app("gs.len", asInt(v))}, tInt
 			case *types.Map:
 				return IntV{c.mapLen(env.s, asInt(v), u)}, tInt
 			}
@@ -479,7 +486,7 @@ func (env *CEnv) evalCall(x *ast.CallExpr) (Value, types.Type) {
 		case "strlen":
 			v, _ := env.eval(x.Args[0])
 			c.useStr()
-			return IntV{app("str.len", asInt(v))}, tInt
+			return IntV{app("gs.len", asInt(v))}, tInt
 		case "haskey":
 			mv, mt := env.eval(x.Args[0])
 			kv, _ := env.eval(x.Args[1])
@@ -529,6 +536,77 @@ func (env *CEnv) evalCall(x *ast.CallExpr) (Value, types.Type) {
 			}
 			name, _ := strconv.Unquote(lit.Value)
 			return IntV{c.heapGet(env.s, "X."+name, sInt)}, tInt
+		case "visited":
+			// visited(k): key k has been visited by the map-range loop whose clause is being evaluated
+			kv, _ := env.eval(x.Args[0])
+			vis := c.heapGet(env.s, fmt.Sprintf("L.visited%d", c.curLoop), sA1)
+			return BoolV{eq(sel(vis, c.keyTerm(kv)), "1")}, tBool
+		case "allocated":
+			v, _ := env.eval(x.Args[0])
+			ref := ""
+			switch xv := v.(type) {
+			case SliceV:
+				ref = xv.Ref
+			case IntV:
+				ref = xv.T
+			default:
+				cfail("allocated: needs a reference or slice")
+			}
+			al := c.heapGet(env.s, "X.alloc", sA1)
+			return BoolV{or(eq(ref, "0"), eq(sel(al, ref), "1"))}, tBool
+		case "ghostold":
+			// ghostold("m", i): the ghost map m as it was at function entry (or before the call), at the CURRENT value of i
+			lit, ok := x.Args[0].(*ast.BasicLit)
+			if !ok {
+				cfail("ghostold needs a string literal")
+			}
+			name, _ := strconv.Unquote(lit.Value)
+			iv, _ := env.eval(x.Args[1])
+			if env.old == nil {
+				cfail("ghostold: no old state")
+			}
+			return IntV{sel(c.heapGet(env.old, "X."+name, sA1), asInt(iv))}, tInt
+		case "ghostat2":
+			lit, ok := x.Args[0].(*ast.BasicLit)
+			if !ok {
+				cfail("ghostat2 needs a string literal")
+			}
+			name, _ := strconv.Unquote(lit.Value)
+			iv, _ := env.eval(x.Args[1])
+			jv, _ := env.eval(x.Args[2])
+			return IntV{sel(sel(c.heapGet(env.s, "X."+name, sA2), asInt(iv)), asInt(jv))}, tInt
+		case "athead":
+			// athead(n, e): e evaluated in the state at the head of the current iteration of loop n
+			lit, ok := x.Args[0].(*ast.BasicLit)
+			if !ok {
+				cfail("athead needs a loop ordinal or header text")
+			}
+			n, _ := strconv.Atoi(lit.Value)
+			if lit.Kind == token.STRING {
+				name, _ := strconv.Unquote(lit.Value)
+				n = 0
+				for ord, h := range c.loopNames {
+					if h == name {
+						n = ord
+					}
+				}
+				if n == 0 {
+					cfail("athead: no loop named %q", name)
+				}
+			}
+			hs, ok := c.loopHeads[n]
+			if !ok {
+				if c.dry > 0 {
+					return env.eval(x.Args[1])
+				}
+				cfail("athead(%d): loop has no step clause or is not active", n)
+			}
+			return env.withState(hs).eval(x.Args[1])
+		case "recvd":
+			// recvd(ch, v): the struct value v was received from channel ch
+			chv, _ := env.eval(x.Args[0])
+			vv, vt := env.eval(x.Args[1])
+			return BoolV{c.recvdPred(asInt(chv), vv, vt)}, tBool
 		case "pbwf":
 			return BoolV{c.pbReqFacts(env.s)}, tBool
 		case "variant":
